@@ -194,7 +194,7 @@ Fixpoint drain (fuel:nat) (g:movegen) : list cmove * movegen :=
     | (None,g') => ([],g')
     | (Some m,g') => let (r,g'') := drain f g' in (m::r, g'')
     end end.
-Definition drain_fuel : nat := 2048.
+Definition drain_fuel : nat := 5000.   (* >= 4*64*18+1, the crude bound of C14_full_drain_bound for 18 entries *)
 Definition moves_of (b:board) : list cmove := fst (drain drain_fuel (new_legal b)).
 
 Definition promo_eqb (a b:option ptype) :=
